@@ -362,8 +362,8 @@ func c13(r *hx.Run) {
 	r.Rule = "exhaustive table at the Fill level: accept (14 values incl. tokens containing 'gzip') x stored subset of raw/gzip/br (7) x raw size {min-1,min,min+1,min+4000} x min {1024,100} x filter {default,custom} x 6 content types x {direct, after Cacheable()}, N random bodies per cell, against the table of the statement/docs (where raw and visible lengths straddle the threshold both outcomes are accepted); then end-to-end through servers with default/configured thresholds and filters: 4 requests per key with random Accept-Encoding, compressor call counters around every hit, stored variants compared with the best-compression profile's output. Non-trivial/distinct = table cell / e2e key class."
 	r.Assume = []string{"Accept-Encoding is a plain list of codings (no q-values)", "gzip/brotli encoders are deterministic (same level => same bytes)"}
 	rnd := rand.New(rand.NewSource(r.Seed))
-	c13Table(r, rnd, r.Pick(1, 8))
-	c13EndToEnd(r, rnd, r.Pick(150, 3000))
+	c13Table(r, rnd, r.Pick(1, 20))
+	c13EndToEnd(r, rnd, r.Pick(150, 10000))
 }
 
 func init() { register("C13", "exploration", c13) }
